@@ -288,8 +288,7 @@ func bBind(intp *Interpreter) error {
 	if !ok {
 		return intp.e(eTypecheck, "bind: needs a procedure, not %T", obj)
 	}
-	intp.bindProc(obj)
-	return nil
+	return intp.bindProc(obj, 0)
 }
 
 func bCleartomark(intp *Interpreter) error {
@@ -1364,7 +1363,10 @@ func equal(a, b Object) (bool, error) {
 	return a == b, nil
 }
 
-func (intp *Interpreter) bindProc(proc Procedure) {
+func (intp *Interpreter) bindProc(proc Procedure, depth int) error {
+	if depth > maxBindDepth {
+		return intp.e(eLimitcheck, "bind: procedures nested too deeply")
+	}
 	for i, elem := range proc {
 		switch obj := elem.(type) {
 		case Name:
@@ -1388,10 +1390,14 @@ func (intp *Interpreter) bindProc(proc Procedure) {
 		case Procedure:
 			// be careful to avoid infinite loops
 			proc[i] = nil
-			intp.bindProc(obj)
+			err := intp.bindProc(obj, depth+1)
 			proc[i] = obj
+			if err != nil {
+				return err
+			}
 		}
 	}
+	return nil
 }
 
 // don't look!
